@@ -1,5 +1,6 @@
 """A rules (assembly ABI), asm constant pools (K1-asm) and object sections (G1-asm)."""
 import os
+import re
 import struct
 import sys
 VERIF = os.path.dirname(os.path.dirname(os.path.dirname(os.path.abspath(__file__))))
@@ -21,7 +22,9 @@ STACK_ARGS = {
     ("compress_xof", "windows_gnu"): {40: (1, "flags"), 48: (8, "out"), 8: (8, "home:rcx"), 16: (8, "home:rdx"), 24: (8, "home:r8"), 32: (8, "home:r9")},
     ("xof_many", "unix"): {8: (8, "outblocks")},
 }
-EXPECTED_FUNCS = {"unix": 11, "windows_gnu": 10}
+for _k in [k for k in STACK_ARGS if k[1] == "windows_gnu"]:
+    STACK_ARGS[(_k[0], "windows_msvc")] = STACK_ARGS[_k]
+EXPECTED_FUNCS = {"unix": 11, "windows_gnu": 10, "windows_msvc": 10}
 
 
 def op_of(fname):
@@ -48,7 +51,7 @@ def objects(ctx):
 
 
 def rule_A(ctx):
-    count = {"unix": 0, "windows_gnu": 0}
+    count = {"unix": 0, "windows_gnu": 0, "windows_msvc": 0}
     nrets = 0
     infos = {}
     for o in objects(ctx):
@@ -196,3 +199,52 @@ def rule_A9(ctx, only=None):
             for inst, where, detail in bad:
                 ctx.ob(False, "A9:%s:%s" % (tag, inst), where, detail)
     ctx.floor("assembly kernels scanned for slot self-copies", n, 1 if only else 21)
+
+
+def rule_A10(ctx):
+    """every access to the routine's own frame lies inside what the prologue allocated: after `sub rsp, N` (optionally
+    followed by a realigning `and rsp, -A`, which can only move rsp further down) each [rsp + d] access of width w has
+    0 <= d and d + w <= N -- otherwise it can reach the saved registers / return address above the frame"""
+    n = 0
+    for o in objects(ctx):
+        for fname in sorted(o.funcs):
+            if op_of(fname) is None:
+                continue
+            insns = o.funcs[fname]
+            tag = "%s:%s" % (fname, o.flavour)
+            subs = [(k, i) for k, i in enumerate(insns) if i.mn == "sub" and i.ops and asmabi.canon_reg(i.ops[0]) == "rsp" and re.fullmatch(r"(0x[0-9a-f]+|\d+)", i.ops[1].strip())]
+            frames = []
+            for k, i in subs:
+                N = int(i.ops[1], 0)
+                end = len(insns)
+                for k2 in range(k + 1, len(insns)):
+                    j = insns[k2]
+                    if (j.mn == "mov" and j.ops and asmabi.canon_reg(j.ops[0]) == "rsp") or (j.mn == "add" and j.ops and asmabi.canon_reg(j.ops[0]) == "rsp") or j.mn == "ret":
+                        end = k2
+                        break
+                frames.append((k, end, N))
+            if not frames:
+                accs = [i for i in insns if any((asmabi.mem_operand(x) or (0, None))[1] == "rsp" and (asmabi.mem_operand(x)[3] < 0) for x in i.ops)]
+                ctx.ob(not accs, "A10:%s" % tag, o.src, "no frame is allocated; %d access(es) below rsp" % len(accs))
+                n += 1
+                continue
+            # a frame torn down on one exit path is still live on the others: take the first allocation and the whole body
+            k0, _, N = frames[0]
+            worst = None
+            for i in insns[k0 + 1:]:
+                for x in i.ops:
+                    m = asmabi.mem_operand(x)
+                    if m and m[1] == "rsp" and not m[2]:
+                        d, w = m[3], m[4]
+                        if i.mn == "lea":
+                            continue
+                        if d < 0 or d + max(w, 1) > N:
+                            # accesses above the frame are legitimate only for stack ARGUMENTS of a frame without saved rbp
+                            # (the Windows compress kernels address their stack arguments as [rsp + N + ...]); those are A4's business
+                            if d >= N and not any(j.mn == "mov" and j.ops and asmabi.canon_reg(j.ops[0]) == "rbp" and asmabi.canon_reg(j.ops[1]) == "rsp" for j in insns[:k0]):
+                                continue
+                            if worst is None or d + w > worst[0]:
+                                worst = (d + w, i.raw.split("\t", 1)[-1].strip())
+            n += 1
+            ctx.ob(worst is None, "A10:%s" % tag, o.src, "frame of %d bytes; %s" % (N, "every [rsp+d] access stays inside it" if worst is None else "%s reaches offset %d" % (worst[1], worst[0])))
+    ctx.floor("assembly routines with frame-extent check", n, 31)
